@@ -11,11 +11,11 @@ import (
 type DialOutcome int
 
 const (
-	DialConnect DialOutcome = iota // connect at once (default)
-	DialRefuse                     // fail at once with "connection refused"
-	DialHang                       // never completes: returns when the dial context ends
-	DialLate                       // stays pending until the harness calls Release
-	DialLateForce                  // like DialLate, but the dial function ignores its context: it completes even after the context ended
+	DialConnect   DialOutcome = iota // connect at once (default)
+	DialRefuse                       // fail at once with "connection refused"
+	DialHang                         // never completes: returns when the dial context ends
+	DialLate                         // stays pending until the harness calls Release
+	DialLateForce                    // like DialLate, but the dial function ignores its context: it completes even after the context ended
 )
 
 type pendingDial struct {
